@@ -1554,6 +1554,9 @@ impl<T: Transport, Env: UtpEnvironment> VirtualSocket<T, Env> {
             pending_if_cannot_send!(self.process_all_incoming_messages(cx));
 
             // Flow control: flush as many in-order messages to user RX as possible.
+            if let Some(rmss) = NonZeroUsize::new(self.segment_sizes.mss() as usize) {
+                self.user_rx.set_max_incoming_payload(rmss);
+            }
             bail_if_err!(self.user_rx.flush(cx).map(|_| ()));
 
             if self
